@@ -615,6 +615,9 @@ package gocql
 //@   ensures[C15] old(iter.err) == nil && old(iter.pos >= iter.numRows) && old(iter.next) == nil ==> !result && nextIter_fetch_calls == 0 && fetchAsync_calls == 0 && readColumn_calls == 0 && iter.err == nil
 // a page is switched only when the current one is exhausted, to this iterator's own follow-up page
 //@   before[C15] nextIter.fetch: arg0 == iter.next && iter.pos >= iter.numRows && iter.err == nil
+// the iterator continues as the fetched page, whatever it is - a failed fetch becomes the iterator's error
+//@   before[C15] Scan: nextIter_fetch_calls == 1 && arg0 == iter && iter.err == nextIter_fetch_ret0.err && iter.pos == nextIter_fetch_ret0.pos && iter.numRows == nextIter_fetch_ret0.numRows && iter.next == nextIter_fetch_ret0.next && iter.framer == nextIter_fetch_ret0.framer
+//@   ensures[C15] old(iter.err) != nil ==> iter.err == old(iter.err)
 // a row of the current page: the position advances by one, the page stays
 //@   ensures[C15] result && old(iter.err) == nil && old(iter.pos < iter.numRows) ==> iter.pos == old(iter.pos) + 1 && iter.numRows == old(iter.numRows) && nextIter_fetch_calls == 0
 
@@ -625,7 +628,11 @@ package gocql
 //@   requires is.iter != nil
 //@   requires[C15] iter_wf(is.iter)
 //@   before[C15] nextIter.fetch: arg0 == iter.next && iter.pos >= iter.numRows && iter.err == nil
-//@   ensures[C15] old(is.iter.err) != nil ==> !result && nextIter_fetch_calls == 0 && readColumn_calls == 0
+// the scanner continues on the fetched page, whatever it is (its error is what Err() reports)
+//@   before[C15] Next: nextIter_fetch_calls == 1 && arg0 == is && is.iter == nextIter_fetch_ret0
+//@   ensures[C15] nextIter_fetch_calls == 0 ==> is.iter == old(is.iter)
+//@   ensures[C15] nextIter_fetch_calls == 1 ==> is.iter == nextIter_fetch_ret0
+//@   ensures[C15] old(is.iter.err) != nil ==> !result && nextIter_fetch_calls == 0 && readColumn_calls == 0 && is.iter == old(is.iter)
 //@   ensures[C15] old(is.iter.err) == nil && old(is.iter.pos >= is.iter.numRows) && old(is.iter.next) == nil ==> !result && nextIter_fetch_calls == 0 && readColumn_calls == 0
 //@   ensures[C15] result && old(is.iter.pos < is.iter.numRows) ==> is.iter == old(is.iter) && is.iter.pos == old(is.iter.pos) + 1 && nextIter_fetch_calls == 0
 //@   assume is.iter.pos < is.iter.numRows ==> is.iter.framer != nil
@@ -1573,6 +1580,14 @@ package gocql
 //@   before[@exec] exec: typeis(arg2, *writeExecuteFrame) ==> prepareStatement_calls == 1 && prepareStatement_ret1 == nil && same(unbox(arg2, *writeExecuteFrame).preparedID, prepareStatement_ret0.id) && len(unbox(arg2, *writeExecuteFrame).params.values) == prepareStatement_ret0.request.actualColCount && marshalQueryValue_calls == prepareStatement_ret0.request.actualColCount
 //@   before exec: typeis(arg2, *writeQueryFrame) ==> prepareStatement_calls == 0 && same(unbox(arg2, *writeQueryFrame).statement, qry.stmt)
 //@   before exec: typeis(arg2, *writeExecuteFrame) || typeis(arg2, *writeQueryFrame)
+// the request carries this query's paging state, page size and consistency (a follow-up page differs
+// from its predecessor only in the paging state, see the at_return clauses)
+//@   before[C15] exec: typeis(arg2, *writeQueryFrame) && len(old(qry.pageState)) > 0 ==> same(unbox(arg2, *writeQueryFrame).params.pagingState, old(qry.pageState))
+//@   before[C15] exec: typeis(arg2, *writeExecuteFrame) && len(old(qry.pageState)) > 0 ==> same(unbox(arg2, *writeExecuteFrame).params.pagingState, old(qry.pageState))
+//@   before[C15] exec: typeis(arg2, *writeQueryFrame) && len(old(qry.pageState)) == 0 ==> len(unbox(arg2, *writeQueryFrame).params.pagingState) == 0
+//@   before[C15] exec: typeis(arg2, *writeExecuteFrame) && len(old(qry.pageState)) == 0 ==> len(unbox(arg2, *writeExecuteFrame).params.pagingState) == 0
+//@   before[C15] exec: typeis(arg2, *writeQueryFrame) ==> (old(qry.pageSize) > 0 ==> unbox(arg2, *writeQueryFrame).params.pageSize == old(qry.pageSize)) && (old(qry.pageSize) <= 0 ==> unbox(arg2, *writeQueryFrame).params.pageSize == 0) && unbox(arg2, *writeQueryFrame).params.consistency == old(qry.cons)
+//@   before[C15] exec: typeis(arg2, *writeExecuteFrame) ==> (old(qry.pageSize) > 0 ==> unbox(arg2, *writeExecuteFrame).params.pageSize == old(qry.pageSize)) && (old(qry.pageSize) <= 0 ==> unbox(arg2, *writeExecuteFrame).params.pageSize == 0) && unbox(arg2, *writeExecuteFrame).params.consistency == old(qry.cons)
 //@   before keyFor: same(arg1, c.host.hostId) && same(arg2, c.currentKeyspace) && same(arg3, qry.stmt)
 //@   before evictPreparedID: keyFor_calls >= 1 && same(arg1, keyFor_ret0) && typeis(resp, *RequestErrUnprepared) && same(arg2, unbox(resp, *RequestErrUnprepared).StatementId)
 //@   before executeQuery: evictPreparedID_calls == 1 && arg0 == c && arg2 == qry
